@@ -94,6 +94,10 @@ def gen(tier, seed, chunk, nch):
         if rng.random() < 0.25:
             d = dict(d, moved=rng.choice(["MOVE", "MOVEA"]))   # the configured parser is moved before it is used
         case = {"decl": d, "argv": argv, "cfg": ci, "rand": True}
+        if rng.random() < 0.25:
+            # through parse(std::vector<user_input>): tokens built by the string constructor (V) or, for everything
+            # that does not start with a dash, by user_input::verbatim() (W)
+            case["mode"] = rng.choice(["V", "W", "W"])
         if rng.random() < 0.3:
             # earlier calls on the same parser: too many positionals, an unknown option behind positionals,
             # a value missing behind positionals, an empty vector, an accepted vector
@@ -126,7 +130,8 @@ def evaluate(case, lines, S):
         S.counters["scale:positionals>=%d" % max(x for x in [0, 17, 257, 4097, 65536] if x <= len(argv))] += 1
     if any(t == b"--" or not t.startswith(b"-") for t in argv):
         S.distinct.add(optrun.h64(case["cfg"], argv))
-    kind, suffix, desc, ex, ob = optoracle.judge(d, {}, argv, line)
+    kind, suffix, desc, ex, ob = optoracle.judge(d, {}, argv, line, case.get("mode", "A"))
+    S.counters["overload:" + case.get("mode", "A")] += 1
     if b"--" in argv:
         i = argv.index(b"--")
         S.counters["first-dd-at:%d" % min(i, 5)] += 1
